@@ -612,8 +612,14 @@ def _gen_exotic(rng):
         (s_.get("np") or {}).pop("requested", None)
         scn["no_model"] = True
     elif r < 0.36 and scn["sessions"]:                  # session ids that ARE keys of the context_dict
+        used = set()
         for s_ in rng.sample(scn["sessions"], min(len(scn["sessions"]), rng.choice([1, 1, 2]))):
-            s_["alias"] = rng.choice(["self", "self", "battery", "network", "sim", "queue"])
+            # "self" / "battery" are objects of the EV itself; network / sim / queue exist once per simulation, so each may name
+            # at most ONE session (two sessions with one id are outside C09: session ids identify EVs)
+            al = rng.choice([a for a in ["self", "self", "battery", "network", "sim", "queue"] if a not in used])
+            if al in ("network", "sim", "queue"):
+                used.add(al)
+            s_["alias"] = al
         scn["no_model"] = True
     elif r < 0.48 and scn["sessions"]:                  # float32 BATTERY fields: measured, not promised (ASSUMPTIONS)
         s_ = rng.choice(scn["sessions"])
